@@ -30,7 +30,7 @@ From Soy Require Import Model.Outcome Model.MsgId Proofs.MsgIdProofs.
 From Soy Require Import Model.Lexer Model.Parser Proofs.LexerProofs Proofs.LexExpr Proofs.LexPrintTop Proofs.LexPrintMain Proofs.LexParseText Proofs.LexPrintCmd Proofs.PrintCmdText.
 From Soy Require Import Proofs.ParserProofs Proofs.CmdParserFuel Proofs.PrintCmdFile.
 From Soy Require Import Spec.LexKeyword Proofs.LexPrint Proofs.LexKeywordProofs.
-From Soy Require Import Model.RawText Model.Parser Model.AstPrintCmd Spec.CmdSyntax Proofs.CmdRoundtripBase Proofs.CmdRoundtripRules Proofs.CmdRoundtrip Proofs.ExprParserMono Proofs.CmdParserStripDefs Proofs.CmdParserStripMain Proofs.CmdRoundtripStrip Proofs.LexBodyC17Body Proofs.LexBodyC17Top Proofs.CmdRoundtripBytes.
+From Soy Require Import Model.RawText Model.Parser Model.AstPrintCmd Spec.CmdSyntax Proofs.CmdRoundtripBase Proofs.CmdRoundtripRules Proofs.CmdRoundtrip Proofs.ExprParserMono Proofs.CmdParserStripDefs Proofs.CmdParserStripMain Proofs.CmdRoundtripStrip Proofs.LexBodyC17 Proofs.LexBodyC17Body Proofs.LexBodyC17Top Proofs.CmdRoundtripBytes Proofs.CmdRoundtripEof Proofs.CmdRoundtripFile Proofs.LexTokens Proofs.LexExpr.
 Open Scope N_scope.
 
 (* Parsing the items of the printed expression gives back the expression itself (positions
@@ -493,9 +493,10 @@ Definition ex_body : node :=
 
 Example C17_body_wf_nonvacuous : wf_body ex_lexq (nameok (b "ns") []) false ex_body.
 Proof.
-  cbn -[msg_raw_text rawtext_run go_quote print_node trim_space run_text run_pos split_dots].
+  cbn -[msg_raw_text rawtext_run go_quote print_node trim_space run_text run_pos split_dots c17_no_lead_minus].
   unfold key_ok, float_ok, quoted_ok, call_name_ok, nameok, plain, no_byte, run_ok.
   repeat match goal with
+         | |- c17_no_lead_minus _ => vm_compute; exact I
          | H : _ :: _ = [] |- _ => discriminate H
          | H : false = true |- _ => discriminate H
          | H : existsb _ _ = true |- _ => vm_compute in H; try discriminate H
@@ -602,12 +603,18 @@ Proof. vm_compute. split; [reflexivity | discriminate]. Qed.
    String() writes for a body of the class lb17_okb (Proofs/LexBodyC17Body.v) sends exactly the items of
    body_toks (types and texts), then EOF: lexText on the text stretches, lexLeftDelim / lexBeginTag with the
    keyword table for "{if " "{let " "{for " ..., lexInsideTag for the expressions (lex_print), both right
-   delimiters back to lexText, the closing tags "{/if}" .., lexCss, attribute strings.  PARTIAL in the class:
-   raw text without "/" (no comment test), print, {debugger}, {log}, {let} in both forms, {if}/{elseif}/{else},
-   {for}/{ifempty} with a plain variable as the list (lb17_anylast: the expression after "in" is lexed with
-   a term as the previous item), {switch} whose cases all have values (the default case prints as "{case }": W1),
-   {css}, {call} with data="all" / data="e" / content parameters; NOT {param k: e/} and the bare {call x.y/}
-   (lex_print's follow set has no "/"), {msg} / {plural}.
+   delimiters back to lexText, the closing tags "{/if}" .., lexCss, attribute strings.
+   PARTIAL in the class:
+   raw text that lexText reads as one piece whatever precedes it (lb17_one_piece: no comment opener "/*", no "//" at
+   its start or behind white space; a single "/" is fine), print, {debugger}, {log}, {let} in both forms,
+   {if}/{elseif}/{else}, {for}/{ifempty} with any list expression whose text does not start with "-" (c17_no_lead_minus, a clause of wf_body too; after "in" it
+   is lexed with a term as the previous item), {switch} whose cases all have values (the default case prints as
+   "{case }": W1), {css}, {call} with data="all" / data="e" / no attribute, without parameters ({call x.y/}) or with
+   parameters of both forms ({param k: e/}, {param k}..{/param}); NOT {msg} / {plural} (the run accumulation of
+   children_toks and %q strings at string level), {css} text
+   with non-ASCII bytes.  Raw text WITH a comment opener is outside for a reason of the code, not of the proof:
+   RawTextNode.String() writes the text, and the scanner takes "//" behind white space and "/*" as comments
+   (another member of W2, notes/astprint-reparse.md).
    C17_template_body_text_roundtrip_partial: for such a body that is also well-formed (wf_body), the string
    String(body) ++ "{/template}" goes through the scanner model and then through the command-level parser model
    (from its initial state, for every budget above a bound, with the entry points' expression budget) to the
@@ -658,3 +665,140 @@ Qed.
 Example C17_bytes_example_text :
   print_tree (NList 1 ex_bytes_nodes) = Some (b "a{if $x}b{else}{debugger}{/if}{let $y}c{/let}").
 Proof. vm_compute. reflexivity. Qed.
+
+(* ---- parse.SoyFile(String(file)).  SoyFileNode.String() concatenates the String()s of the file's nodes; parse.SoyFile
+   is itemList with the until set {EOF} under the budget file_fuel.  A file whose String() is SOURCE SYNTAX is a list of
+   body-level commands (what parse.SoyFile accepts outside templates): TemplateNode.String prints the qualified name
+   (the parser wants ".name"), drops autoescape / private / kind and adds line breaks around the body, NamespaceNode
+   drops autoescape, SoyDocNode the description (W3 of notes/astprint-reparse.md; C17_file_with_template_refuted below
+   is the witness in the models).
+   C17_file_parse_roundtrip_any_positions: token level, the list ends AT the item EOF (Proofs/CmdRoundtripEof.v): any
+   items with the types and texts of body_toks x followed by EOF are read by itemList {EOF} from the initial state,
+   for every budget above a bound, as x up to positions.
+   C17_soy_file_text_roundtrip_partial: bytes -> tree through the entry point itself: for a list of commands of the
+   class lb17_okb that is wf_body, the scanner model on String() sends items on which soy_file (the model of
+   parse.SoyFile, with ITS budget) returns the list up to node positions.  PARTIAL only in the class (see above). ---- *)
+Theorem C17_file_parse_roundtrip_any_positions :
+  forall (inlen inlen' : N) (lexq : bstr -> list tok) (unq : bstr -> option bstr),
+  (forall s q, go_quote s = Some q -> unq q = Some s) ->
+  forall q nodes e its,
+  wf_body lexq (nameok [] []) false (NList q nodes) -> t_typ e = pit_EOF ->
+  map strip_tok its = map strip_tok (body_toks (NList q nodes) ++ [e]) ->
+  exists f0, forall f, (f0 <= f)%nat ->
+    exists x' s', item_list inlen' lexq unq parse_expr expr_fuel f u_eof (cst_init its) = COk x' s' /\
+                  cps_strip x' = cps_strip (NList q nodes).
+Proof. exact file_roundtrip_any_positions. Qed.
+Print Assumptions C17_file_parse_roundtrip_any_positions.
+
+Theorem C17_soy_file_text_roundtrip_partial :
+  forall (lexq : bstr -> list tok) (unq : bstr -> option bstr),
+  lexq_wf lexq -> (forall s q, go_quote s = Some q -> unq q = Some s) ->
+  forall q ns txt,
+  wf_body lexq (nameok [] []) false (NList q ns) -> lb17_okb ns -> print_tree (NList q ns) = Some txt ->
+  exists its x' p',
+    lex_items is_letter_tbl is_digit_tbl (lex_budget txt) false txt = Ok its /\
+    po_result (soy_file (N.of_nat (length txt)) lexq unq its) = POk x' p' /\
+    cps_strip x' = cps_strip (NList q ns).
+Proof. exact soy_file_text_roundtrip. Qed.
+Print Assumptions C17_soy_file_text_roundtrip_partial.
+
+(* non-vacuity, with the forms added to the class in this wave: text with "/", {call x.y/}, {param k: e/} *)
+Definition ex_file_nodes : list node :=
+  [ NRawText 1 (b "a/b");
+    NCall 0 (b "x.y") false None [];
+    NCall 0 (b "x.z") false None [NParamValue 0 (b "k") (NDataRef 0 (b "e") [])] ].
+Definition ex_file_text : bstr := Eval vm_compute in b "a/b{call x.y/}{call x.z}{param k: $e/}{/call}".
+Example C17_file_example_text : print_tree (NList 1 ex_file_nodes) = Some ex_file_text.
+Proof. vm_compute. reflexivity. Qed.
+Example C17_file_example_wf : wf_body ex_lexq (nameok [] []) false (NList 1 ex_file_nodes).
+Proof.
+  cbn -[rawtext_run print_node split_dots].
+  unfold call_name_ok, nameok.
+  repeat match goal with
+         | |- _ /\ _ => split
+         | |- True => exact I
+         | |- exists _, _ => eexists
+         | Ha : c_al ?s = _ |- resolve_name ?s _ = _ => unfold resolve_name; rewrite Ha; vm_compute; reflexivity
+         | |- forall _, _ => intro
+         | |- wf_expr _ => cbn
+         | |- _ = _ => vm_compute; reflexivity
+         | |- _ <> _ => vm_compute; discriminate
+         end.
+Qed.
+Lemma ex_plain_word_1 c : (c < 128)%N -> letter_b c = true -> assoc_s [c] builtin_idents = None -> plain_word [c].
+Proof. intros H1 H2 H3. exists c, []. repeat split; assumption. Qed.
+Lemma ex_dotted_2 c d : plain_word [c] -> alnums [d] -> head_digit [d] = false ->
+  split_dots [] [c; 46; d] = [[c]; [46; d]] -> dotted_ok [c; 46; d].
+Proof.
+  intros H1 H2 H3 E. unfold dotted_ok. rewrite E. split; [exact H1|]. constructor; [|constructor].
+  exists [d]. repeat split; assumption.
+Qed.
+Example C17_file_example_ok : lb17_okb ex_file_nodes.
+Proof.
+  unfold ex_file_nodes.
+  apply lb17_ok_text.
+  - repeat (apply Forall_cons; [repeat split; discriminate|]). apply Forall_nil.
+  - intros pw. destruct pw; reflexivity.
+  - reflexivity.
+  - apply lb17_ok_cmd; [|apply lb17_ok_cmd; [|apply lb17_ok_nil]].
+    + apply lb17_ok_call; [|exact I|apply lb17_ok_params_nil].
+      apply ex_dotted_2; try reflexivity. apply ex_plain_word_1; reflexivity.
+    + apply lb17_ok_call; [|exact I|].
+      * apply ex_dotted_2; try reflexivity. apply ex_plain_word_1; reflexivity.
+      * apply lb17_ok_params_val; [|exact I|split; [reflexivity|exact I]|apply lb17_ok_params_nil].
+        apply ex_plain_word_1; reflexivity.
+  - exact I.
+Qed.
+(* the same example by computation: scanner model, then the model of parse.SoyFile *)
+Example C17_file_example_parses :
+  match lex_items is_letter_tbl is_digit_tbl (lex_budget ex_file_text) false ex_file_text with
+  | Ok its => match po_result (soy_file (N.of_nat (length ex_file_text)) ex_lexq ex_unq its) with
+              | POk x' _ => cps_strip x' = cps_strip (NList 1 ex_file_nodes)
+              | _ => False
+              end
+  | _ => False
+  end.
+Proof. vm_compute. reflexivity. Qed.
+
+(* W3 in the models: a file with a template.  Its String() is  {namespace a}{template a.x} LF hi LF {/template} LF ;
+   the scanner model reads it, the model of parse.SoyFile refuses it (the template name must start with "."). *)
+Definition ex_w3_file : node :=
+  NList 0 [NNamespace 0 (b "a") 0; NTemplate 0 (b "a.x") (NList 0 [NRawText 0 (b "hi")]) 0 false].
+Example C17_file_with_template_refuted :
+  exists txt, print_tree ex_w3_file = Some txt /\
+    match lex_items is_letter_tbl is_digit_tbl (lex_budget txt) false txt with
+    | Ok its => match po_result (soy_file (N.of_nat (length txt)) ex_lexq ex_unq its) with
+                | PErr _ _ _ => True
+                | _ => False
+                end
+    | _ => False
+    end.
+Proof. eexists. split; [vm_compute; reflexivity|]. vm_compute. exact I. Qed.
+
+(* the {for} clause of the class with a list expression that is not a variable *)
+Definition ex_for_nodes : list node :=
+  [NFor 0 (b "x") (NBin OSub 0 (NDataRef 0 (b "a") []) (NInt 0 1)) (NList 0 []) None].
+Example C17_for_list_expression_in_class :
+  lb17_okb ex_for_nodes /\ print_tree (NList 0 ex_for_nodes) = Some (b "{for $x in $a - 1}{/for}").
+Proof.
+  split; [|vm_compute; reflexivity].
+  apply lb17_ok_cmd; [|apply lb17_ok_nil].
+  assert (Hwf : wf_expr (NBin OSub 0 (NDataRef 0 (b "a") []) (NInt 0 1))).
+  { cbn. repeat split; try reflexivity; try exact I. }
+  assert (Hlo : lex_ok (NBin OSub 0 (NDataRef 0 (b "a") []) (NInt 0 1))).
+  { cbn. repeat split; try reflexivity; try exact I. }
+  apply lb17_ok_for; [reflexivity|exact Hwf|exact Hlo|vm_compute; exact I|apply lb17_ok_nil].
+Qed.
+(* and W4 in the models: the printed text of {for $x in (-$a)} is read by the scanner model with the BINARY minus behind "in",
+   and the model of parse.SoyFile refuses the items *)
+Example C17_for_list_minus_refuted :
+  let f := NList 0 [NFor 0 (b "x") (NNeg 0 (NDataRef 0 (b "a") [])) (NList 0 [NRawText 0 (b "b")]) None] in
+  exists txt, print_tree f = Some txt /\
+    match lex_items is_letter_tbl is_digit_tbl (lex_budget txt) false txt with
+    | Ok its => match po_result (soy_file (N.of_nat (length txt)) ex_lexq ex_unq its) with
+                | PErr _ _ _ => True
+                | _ => False
+                end
+    | _ => False
+    end.
+Proof. eexists. split; [vm_compute; reflexivity|]. vm_compute. exact I. Qed.
